@@ -16,7 +16,8 @@ RULE = ("case = generated plotfile (C01 universe: every layout of one deviating 
         "multiset (resp. sequence) of bit patterns with the reference boxes; non-trivial = more than one "
         "task and a non-identity schedule or a multi-file layout")
 ASSUMPTIONS = ["tasks are atomic (they only read files; independence is checked in C12)",
-               "<= 4 tasks per pool call explored over all n! orders x {lazy, eager}"]
+               "<= 4 tasks per pool call explored over all n! orders x {lazy, eager}; beyond that every order of every 4-subset moved to the front "
+               "(levels with more than 8 boxes: 3-subsets of six positions)"]
 
 
 def bounds(tier):
@@ -95,7 +96,7 @@ def run_case(case, workdir):
     levels = range(ref.nlevels) if case.get("devlevel") is None else [case["devlevel"]]
     for lv in levels:
         nb = len(ref.boxes[lv])
-        for ftag, fidx, fcls in field_forms(names):
+        for ftag, fidx, fcls in (field_forms(names) if nb <= 8 else [f for f in field_forms(names) if f[0] in (["name", names[0]], ["slice", 1, None, None], ["list", [1, 2, 0]])]):
             exp_boxes = [ref.data[lv][b][..., fidx] for b in range(nb)]
             exp_ms = multiset(exp_boxes)
 
@@ -105,7 +106,7 @@ def run_case(case, workdir):
                         it = iter(pck[S.decode(ftag)][lv])
                         return list(itertools.islice(it, nb + 3))
                     return ctl, call(go)
-            for plan, ctl, (st, val) in explorer.explore(run_iter, bound=case.get("bound", 1)):
+            for plan, ctl, (st, val) in explorer.explore(run_iter, bound=case.get("bound", 1), max_tasks=3 if nb > 8 else explorer.MAX_TASKS):
                 ntasks = max([c["n"] for c in ctl.calls] or [0])
                 nontriv = ntasks > 1
                 rec.exe([dh, "iter", ftag, lv, explorer.plan_json(plan)], nontrivial=nontriv,
@@ -158,7 +159,7 @@ def run_case(case, workdir):
                             it = pck[S.decode(ftag)][lv].iter(S.decode(btag))
                             return list(itertools.islice(it, len(bsel) + 3))
                         return ctl, call(go)
-                for plan, ctl, (st, val) in explorer.explore(run_on_demand, bound=1):
+                for plan, ctl, (st, val) in explorer.explore(run_on_demand, bound=1, max_tasks=3 if nb > 8 else explorer.MAX_TASKS):
                     rec.exe([dh, "ondemand", ftag, lv, btag, explorer.plan_json(plan)],
                             nontrivial=len(bsel) > 1, trans=sum(c["n"] for c in ctl.calls))
                     sub = {"op": "ondemand", "field": ftag, "level": lv, "box": btag,
